@@ -655,6 +655,37 @@ def shared_weight_model(rng):
   return mb.finish(), {'n_subgraphs': 1, 'ops': [2]}
 
 
+def reshape_concat_model(rng):
+  """a[1,2n] -> RESHAPE [2,n] ; concat(reshape(a), b[2,n]) on axis 0: a byte-copying
+  (same-scale) operator feeding a CONCATENATION whose other operand has a much wider
+  range — the concat input must be REQUANTIZED to the output's parameters"""
+  mb = ModelBuilder(rng, name_style=0)
+  gb = GraphBuilder(mb, 0, 'serving_default')
+  n = rng.choice([2, 3, 4])
+  a = gb.act('serving_default_a', (1, 2 * n))
+  b = gb.act('serving_default_b', (2, n))
+  gb.g.inputs += [a, b]
+  sh = gb.iconst('serving_default/reshape/shape', [2, n])
+  r = gb.act('serving_default/reshape/out', (2, n))
+  gb.op(B.RESHAPE, [a, sh], [r], S.BuiltinOptions.ReshapeOptions, gb._mk(S.ReshapeOptionsT, newShape=[2, n]))  # pylint: disable=protected-access
+  out = gb.act('serving_default/concat/out', (4, n))
+  parts = [r, b] if rng.random() < 0.5 else [b, r]
+  gb.op(B.CONCATENATION, parts, [out], S.BuiltinOptions.ConcatenationOptions,
+        gb._mk(S.ConcatenationOptionsT, axis=0, fusedActivationFunction=0))  # pylint: disable=protected-access
+  gb.g.outputs = np.array([out], dtype=np.int32)
+  gb.g.inputs = np.array(gb.g.inputs, dtype=np.int32)
+  mb.m.subgraphs.append(gb.g)
+  sd = S.SignatureDefT()
+  sd.signatureKey = b'serving_default'
+  sd.subgraphIndex = 0
+  sd.inputs, sd.outputs = [], []
+  for nm, t in (('a', a), ('b', b)):
+    tm = S.TensorMapT(); tm.name = nm.encode(); tm.tensorIndex = int(t); sd.inputs.append(tm)
+  tm = S.TensorMapT(); tm.name = b'y'; tm.tensorIndex = int(out); sd.outputs.append(tm)
+  mb.m.signatureDefs.append(sd)
+  return mb.finish(), {'n_subgraphs': 1, 'ops': [2]}
+
+
 def shared_operand_model(rng):
   """x -> op1(x, C) -> op2(y1, C): ONE constant tensor read by two element-wise ops
   (as an activation-type operand): rules that give the two ops different
